@@ -111,6 +111,8 @@ class FakeInterface:
         self.connection_config = ConnectionConfig()
         self.sent: list[Sent] = []
         self.started = False
+        # optional slowness: fn() -> (seconds send_cemi itself takes, seconds until the L_Data.con arrives); keep the sum < 3 s
+        self.delay_fn: Callable[[], tuple[float, float]] | None = None
 
     async def start(self) -> None:
         from xknx.core import XknxConnectionState
@@ -144,10 +146,29 @@ class FakeInterface:
         # serialising is what a real interface does first: it must work
         cemi.to_knx()
         self.sent.append(Sent(self.loop.time(), data.dst_addr, kind, value, len(self.sent)))
+        send_delay, con_delay = self.delay_fn() if self.delay_fn is not None else (0.0, 0.0)
+        if send_delay > 0:
+            await asyncio.sleep(send_delay)
         if self.confirm:
-            self.xknx.cemi_handler.handle_cemi_frame(
-                CEMIFrame(code=CEMIMessageCode.L_DATA_CON, data=data)
-            )
+            con = CEMIFrame(code=CEMIMessageCode.L_DATA_CON, data=data)
+            if con_delay > 0:
+                self.loop.call_later(con_delay, self.xknx.cemi_handler.handle_cemi_frame, con)
+            else:
+                self.xknx.cemi_handler.handle_cemi_frame(con)
+
+
+class RecordingQueue(asyncio.Queue):  # type: ignore[type-arg]
+    """Drop-in for the public slot `xknx.telegrams`: remembers when each telegram was queued."""
+
+    def __init__(self, clock: Callable[[], float]) -> None:
+        super().__init__()
+        self._clock = clock
+        self.log: list[tuple[float, Any]] = []
+
+    def put_nowait(self, item: Any) -> None:
+        if item is not None:
+            self.log.append((self._clock(), item))
+        super().put_nowait(item)
 
 
 class _LogCatcher(logging.Handler):
@@ -188,6 +209,8 @@ class DevHarness:
         self.xknx = XKNX(rate_limit=rate_limit)
         self.iface = FakeInterface(self.xknx, self.loop)
         self.xknx.knxip_interface = self.iface  # public slot
+        self.queue_log = RecordingQueue(self.loop.time)
+        self.xknx.telegrams = self.queue_log  # public slot, replaced before start
         self._stack = contextlib.ExitStack()
         if shim:
             self._stack.enter_context(shim_time(self.loop.time))
@@ -244,6 +267,11 @@ class DevHarness:
                 await asyncio.sleep(0)
             await self.xknx.telegrams.join()
         for _ in range(4):
+            await asyncio.sleep(0)
+
+    async def soft_settle(self, turns: int = 16) -> None:
+        """Let ready callbacks run without waiting for the (possibly slow) interface."""
+        for _ in range(turns):
             await asyncio.sleep(0)
 
     async def sleep_until(self, t: float) -> None:
